@@ -195,10 +195,10 @@ def run_driver(driver, seed, tier, outpath, extra_args=None, timeout=1800):
     return json.loads(last[-1]) if last else {}
 
 
-def corrupt_trace(family, src, dst, seed):
+def corrupt_trace(family, src, dst, seed, avoid=()):
     """copy src to dst with one logged field perturbed; returns a description or None"""
     import corrupt
-    return corrupt.corrupt(family, src, dst, seed)
+    return corrupt.corrupt(family, src, dst, seed, avoid)
 
 
 def prune(family, keep=3):
@@ -251,15 +251,21 @@ def engine(family, seed, tier):
         st = {"done": False}
         d0 = res["drivers"][0]
         cpath = os.path.join(tdir, d0["name"] + ".corrupt.ndjson")
-        desc = corrupt_trace(family, d0["trace"], cpath, seed)
+        # events the specification already flags (a tree that breaks a property) are left alone: also the two neighbours,
+        # because a corrupted post-state is the next event's pre-state
+        flagged = {t["i"] + k for t in d0["tags"] + d0.get("known", []) for k in (-1, 0, 1)}
+        desc = corrupt_trace(family, d0["trace"], cpath, seed, flagged)
         if desc is not None:
             v2 = validate_trace(d0["spec"], cpath)
             orig = {(t["i"], t["guard"]) for t in d0["tags"]}
             new = [t for t in v2["tags"] if (t["i"], t["guard"]) not in orig]
             st = {"done": True, "corruption": desc, "flagged": len(new), "flags": new[:5]}
             os.remove(cpath)
-            if not new:
+            if not new and not d0["tags"]:
                 raise ToolError(f"binding self-test failed: corrupted trace not flagged ({desc})")
+            if not new:
+                # the trace already carries violations; they are reported, the self-test result is recorded as inconclusive
+                st["inconclusive"] = True
         res["selftest"] = st
         res["wall_s"] = round(time.time() - t0, 1)
         json.dump(res, open(cfile, "w"))
